@@ -607,3 +607,5 @@ def run(chk: Check) -> None:
     # document merge: its per-document tables must be rebuilt each time
     from rules.c05 import d2d_rules_per_document
     d2d_rules_per_document(chk, "C18-D5")
+    from rules.shared import config_parser_read_only_rule
+    config_parser_read_only_rule(chk, "C18-D9", 20)
